@@ -106,6 +106,14 @@ type Case struct {
 	Groups    [][]int     `json:"groups,omitempty"`
 	Opt       COptions    `json:"opt"`
 	Features  []string    `json:"features"`
+	Solve     *CSolve     `json:"solve,omitempty"` // solver options the `sol` stream used for this case
+}
+
+type CSolve struct {
+	Runs   int  `json:"runs"`
+	Starts int  `json:"starts"`
+	Det    bool `json:"det"`
+	Iters  int  `json:"iters"`
 }
 
 // Profile steers which features a generated case may use.
